@@ -468,11 +468,21 @@ def run(ctx: Ctx):
 
 def _prev_row_var(upd, rd) -> str:
     """The local holding the copy of the previous epoch's row (dict(self.get_info(epoch - 1, ...)))."""
+    from sa.inline import Inliner
+    from sa.norm import Normalizer, padd
+    inl, nz = Inliner(upd.node, rd), Normalizer()
+    want = nz.poly(ast.parse("epoch - 1", mode="eval").body)
+
+    def _is_prev(a):  # `epoch - 1`, written in place or held in a local
+        try:
+            return not padd(nz.poly(inl.expand(a)), want, -1)
+        except Exception:
+            return False
     for n in own_nodes(upd.node):
         if isinstance(n, ast.Assign) and len(n.targets) == 1 and isinstance(n.targets[0], ast.Name):
             for c in ast.walk(n.value):
                 if isinstance(c, ast.Call) and isinstance(c.func, ast.Attribute) and c.func.attr == "get_info" \
-                        and c.args and isinstance(c.args[0], ast.BinOp) and u(c.args[0]) == "epoch - 1":
+                        and c.args and _is_prev(c.args[0]):
                     if isinstance(n.value, ast.Call) and call_name(n.value) == "dict":
                         return n.targets[0].id
     raise AnalysisError("C15: the copy of the previous epoch's row (dict(self.get_info(epoch - 1))) not found")
